@@ -711,3 +711,15 @@ Lemma media_split_example :
   = Some [IStmt KRuleset rule_str; IStmt KRuleset junk_fn; IStmt KRuleset rule_b]
   /\ bclass_of (T "STRING" """a{b;}""") = BAtom /\ bclass_of (T "URI" "url(x;})") = BAtom.
 Proof. repeat split; vm_compute; reflexivity. Qed.
+
+(* ---------------------------------------------------------------- what the generated tables must say *)
+(* CSS forward-compatible parsing, as the property states it: a statement ends at a top-level ';' or at the '}' of
+   a top-level block, a declaration at a top-level ';' only; the handler receives its first token as start token;
+   no token TYPE ends a statement.  With `mode_of` / `kmode` read from the generated tables this is a statement
+   about the current source: a handler that passes another flag, or a flag whose `ends` changed, breaks it.    *)
+Lemma delimiters_spec_lemma :
+  forallb (fun k => eqs (ends (kmd k)) (s ";}") && match endtypes (kmd k) with [] => true | _ => false end
+                    && snd (kmode k)) (KDeclAt :: sheet_kinds) = true
+  /\ forallb (fun k => eqs (ends (kmd k)) (s ";") && match endtypes (kmd k) with [] => true | _ => false end
+                       && snd (kmode k)) [KDeclIdent; KDeclUnexpected] = true.
+Proof. split; reflexivity. Qed.
